@@ -93,6 +93,8 @@ def _get(i):
 
 def params_of(ref, tier="quick"):
     kind, k = ref
+    if kind == "explicit":
+        return k
     if kind == "two":
         return gens.two_bloc_params(_TIER[0])[k]
     if kind == "one":
@@ -156,6 +158,15 @@ def ranking_wellformed(b, cands):
     return None
 
 
+def _package_hh(shares, N):
+    """What the third-party apportionment package returns for these shares.  Known finding K7 covers exactly the
+    parameter sets for which this output itself is not a Huntington-Hill apportionment (N smaller than the number of
+    parties); a wrong split on any other parameter set is a fresh violation."""
+    import apportionment.methods as apportion
+
+    return tuple(apportion.compute("huntington", list(shares), N))
+
+
 def check_bloc_model(i, model, p, N, ex, res, cnt):
     by_bloc, agg = res
     cands = gens.all_cands(p)
@@ -187,8 +198,10 @@ def check_bloc_model(i, model, p, N, ex, res, cnt):
             four += [c * p["props"][b], (1 - c) * p["props"][b]]
         legal = gens.ref_hh(four, N)
         got = []
+        classifiable = []
         for b in blocs:
             own = set(p["slates"][b])
+            opp_b = [x for x in blocs if x != b][0]
             nb = nc = F(0)
             for x in by_bloc[b].ballots:
                 first = next(iter(x.ranking[0])) if x.ranking else None
@@ -197,14 +210,26 @@ def check_bloc_model(i, model, p, N, ex, res, cnt):
                 else:
                     nc += x.weight
             got += [int(nb), int(nc)]
-        if tuple(got) not in legal:
-            return ("apportionment" if N >= len(four) else "apportionment_fewer_ballots_than_parties"), (
-                f"bloc-first / opposing-first ballot counts {got} are not a Huntington-Hill apportionment of {N} by "
-                f"{[float(x) for x in four]} (legal: {sorted(legal)})")
+            # a ballot reveals its voter type through its first candidate only if the voter can place candidates of both slates
+            c_b = p["cohesion"][b][b]
+            classifiable.append(0 < c_b < 1 and len(gens.normalized(p["supports"][b][b])[0]) > 0
+                                and len(gens.normalized(p["supports"][b][opp_b])[0]) > 0)
+        def compatible(a):
+            for k, b in enumerate(blocs):
+                if a[2 * k] + a[2 * k + 1] != got[2 * k] + got[2 * k + 1]:
+                    return False
+                if classifiable[k] and (a[2 * k], a[2 * k + 1]) != (got[2 * k], got[2 * k + 1]):
+                    return False
+            return True
+        if not any(compatible(a) for a in legal):
+            return ("apportionment_fewer_ballots_than_parties" if N < len(four) and _package_hh(four, N) not in legal else "apportionment"), (
+                f"bloc-first / opposing-first ballot counts {got} (types identifiable per bloc: {classifiable}) are not a Huntington-Hill "
+                f"apportionment of {N} by {[float(x) for x in four]} (legal: {sorted(legal)})")
     else:
         legal = gens.ref_hh(props, N)
         if tuple(int(s) for s in sizes) not in legal:
-            return ("apportionment" if N >= len(props) else "apportionment_fewer_ballots_than_parties"), (
+            return ("apportionment_fewer_ballots_than_parties"
+                    if N < len(props) and _package_hh(props, N) not in legal else "apportionment"), (
                 f"bloc sizes {[int(s) for s in sizes]} are not a Huntington-Hill apportionment of {N} by {props} (legal: {sorted(legal)})")
     for b in blocs:
         if model.startswith("name_") or model == "short_name_PlackettLuce":
